@@ -477,6 +477,9 @@ fn generate(rng: &mut Rng, thorough: bool) -> Vec<Input> {
     for (kind, class, stream) in geninp::corners() {
         add(rng, kind, class.to_string(), stream, 2);
     }
+    for (kind, class, stream) in geninp::text_corners() {
+        add(rng, kind, class.to_string(), stream, 0);
+    }
     let scale: u64 = if thorough { 60 } else { 1 };
     let n_event = 7_000 * scale;
     let n_command = 2_500 * scale;
